@@ -224,10 +224,6 @@ func typedDeviation(i bpf.Instruction) string {
 		if a.Off >= 0xfffff000 {
 			return "typed-loadabs-extrange"
 		}
-	case bpf.LoadExtension:
-		if a.Num < 0 || a.Num > 0xfff {
-			return "typed-ext-range"
-		}
 	}
 	return ""
 }
@@ -338,6 +334,13 @@ func exec(ops []string, o *vu.Out) {
 				}
 				if isRaw(d) {
 					o.Stat("rt2:raw")
+					if d != bpf.Instruction(raw) {
+						o.Fail("", fmt.Sprintf("Disassemble(%s) returned a different RawInstruction %s", fmtRaw(raw), fmtInstr(d)))
+					}
+					if canonicalRaw(raw) {
+						// every encoding Assemble can produce must be decoded, not passed through
+						o.Fail("", fmt.Sprintf("Disassemble(%s): canonical encoding not decoded", fmtRaw(raw)))
+					}
 					return "ok raw"
 				}
 				o.Stat("rt2:" + strings.SplitN(fmtInstr(d), ":", 2)[0])
@@ -347,17 +350,10 @@ func exec(ops []string, o *vu.Out) {
 					return "ok diff"
 				}
 				if again == raw {
-					if !canonicalRaw(raw) {
-						o.Stat("rt2:same-but-noncanonical")
-					}
 					return "ok same"
 				}
-				sig := ""
-				if !canonicalRaw(raw) {
-					sig = "raw-noncanonical"
-				}
-				o.Stat("raw-diff:" + sig)
-				o.Fail(sig, fmt.Sprintf("Assemble(Disassemble(%s)) = %s via %s", fmtRaw(raw), fmtRaw(again), fmtInstr(d)))
+				o.Stat("raw-diff")
+				o.Fail("", fmt.Sprintf("Assemble(Disassemble(%s)) = %s via %s", fmtRaw(raw), fmtRaw(again), fmtInstr(d)))
 				return "ok diff"
 			})
 			o.Op(op, res)
